@@ -218,7 +218,7 @@ def dirty_name(rng, base_dir):
 def dirty_key(rng, base_dir):
     # NB: the empty key is deliberately absent: "{key}/..." is then an absolute path and the
     # real accessor writes into the root of the real file system (seen while building this harness)
-    return rng.choice(["../esc", "k/..", ".", "k/sub", "/" + base_dir.strip("/") + "/../esc2",
+    return rng.choice(["../esc", "k/..", ".", "k/sub", "", "k//sub/.", "a/../b", "/" + base_dir.strip("/") + "/../esc2",
                        os.path.dirname(base_dir) + "/esc3", "..", "k.gz"])
 
 
@@ -272,9 +272,11 @@ def gen_sequence(rng, base_dir, dirty, big_ok):
             key = dirty_key(rng, base_dir) if is_dirty else rng.choice(keys)
             co = rng.choice(coords)
             mime = mime_of.setdefault(("chunk", key), rng.choice(MIMES[:3] + MIMES[4:5]))
-            if rng.random() < 0.5:
+            if rng.random() < 0.5 and key != "":
                 ops.append(["sc", key, co, gen_content(rng, big_ok), mime, rng.random() < 0.8])
             else:
+                # (the empty key makes "{key}/..." an absolute path at the root of the real file
+                #  system: it is only ever used with the read-only fetch_chunk)
                 ops.append(["fc", key, co])
     return ops
 
@@ -299,8 +301,10 @@ def apply_op(acc, op):
     base = str(getattr(acc, "base_path", None) or getattr(acc, "base_dir", ""))
     probe = op[1] + ("/x" if t in ("sc", "fc") else "")
     tgt = "/" + os.path.normpath(probe if probe.startswith("/") else base + "/" + probe).lstrip("/")
-    if SAFE_ROOT[0] and not tgt.startswith(SAFE_ROOT[0] + "/"):
-        raise RuntimeError(f"harness generator produced an op leaving the scratch directory: {op[:2]!r}")
+    if SAFE_ROOT[0] and not tgt.startswith(SAFE_ROOT[0] + "/") and t in ("sf", "sc"):
+        # (read-only operations may look anywhere; a store must never be attempted outside R.tmp,
+        #  whatever the code under test does with it)
+        raise RuntimeError(f"harness generator produced a store leaving the scratch directory: {op[:2]!r}")
     if t == "sf":
         return run_impl(lambda: acc.store_file(op[1], op[2], mime_type=op[3], overwrite=op[4]))
     if t == "ff":
@@ -319,6 +323,16 @@ def py_norm(name):
     if name.startswith("/"):
         return None
     parts = [p for p in name.split("/") if p not in ("", ".")]
+    if ".." in parts or not parts:
+        return None
+    return tuple(parts)
+
+
+def py_key(key):
+    """Scale key -> tuple of components; None = refused; "abs" = absolute/empty (outside the guard)."""
+    if key == "" or key.startswith("/"):
+        return "abs"
+    parts = [p for p in key.split("/") if p not in ("", ".")]
     if ".." in parts:
         return None
     return tuple(parts)
@@ -330,18 +344,33 @@ def dec(v):
 
 def py_chunk_rel(flat, key, co):
     ax = [f"{dec(co[0])}-{dec(co[1])}", f"{dec(co[2])}-{dec(co[3])}", f"{dec(co[4])}-{dec(co[5])}"]
-    return (key, "_".join(ax)) if flat else (key,) + tuple(ax)
+    kp = key if isinstance(key, tuple) else (key,)
+    return kp + ("_".join(ax),) if flat else kp + tuple(ax)
 
 
 def simple_key(k):
     return k != "" and "/" not in k and k not in (".", "..")
 
 
+def py_norm_any(base_dir, name):
+    """Components of a name relative to the base directory (absolute names below the base
+    included); None when outside or mentioning '..'."""
+    if name.startswith("//") and not name.startswith("///"):
+        return None
+    parts = [p for p in name.split("/") if p not in ("", ".")]
+    if name.startswith("/"):
+        bp = [p for p in base_dir.split("/") if p]
+        if parts[:len(bp)] != bp:
+            return None
+        parts = parts[len(bp):]
+    return None if ".." in parts else tuple(parts)
+
+
 def history_guard(flat, ops):
     """True iff the history lies in the region where last_write_wins is
-    proved: relative file names, simple keys, names non-empty, no component
-    ending in '.gz', pairwise prefix-free, the other-layout chunk paths
-    unused, MIME exemption constant per name."""
+    proved: relative file names, relative non-empty keys, no accepted name
+    with a component ending in '.gz', accepted names pairwise prefix-free,
+    the other-layout chunk paths unused, MIME exemption constant per name."""
     used = {}
     others = set()
     for op in ops:
@@ -353,10 +382,14 @@ def history_guard(flat, ops):
                 continue                      # refused on both sides
             mime = op[3] if op[0] == "sf" else None
         else:
-            if not simple_key(op[1]):
+            kp = py_key(op[1])
+            if kp == "abs":
                 return False
-            n = py_chunk_rel(flat, op[1], op[2])
-            others.add(py_chunk_rel(not flat, op[1], op[2]))
+            if kp is None:
+                continue                      # refused on both sides
+            n = py_chunk_rel(flat, kp, op[2])
+            if op[0] == "fc":
+                others.add(py_chunk_rel(not flat, kp, op[2]))
             mime = op[4] if op[0] == "sc" else None
         if not n or any(c.endswith(".gz") for c in n):
             return False
@@ -389,25 +422,16 @@ def escapes_lexically(base_dir, name):
     return not (q == base_dir or q.startswith(base_dir + "/"))
 
 
-def fa_region(cfg, base_dir, op):
-    """Known-finding region of an op on FileAccessor, or None."""
-    if op[0] in ("sf", "ff", "ex"):
-        n = py_norm(op[1]) if not op[1].startswith("/") else None
-        under = op[1].startswith("/") and not op[1].startswith("//") and \
-            tuple(p for p in op[1].split("/") if p not in ("", ".")) == \
-            tuple(p for p in base_dir.split("/") if p)
-        if n == () or under:
-            return "fa-empty-name-escapes"
-        return None
-    if escapes_lexically(base_dir, op[1] + "/x") or op[1] in ("", "."):
-        return "fa-chunk-key-unconfined"
-    return None
+def chunk_target_escapes(base_dir, key):
+    return key == "" or escapes_lexically(base_dir, key + "/x")
 
 
 # ----------------------------------------------------------------- main parts
 
 def make_sandbox(R, idx, precreate):
-    sb = os.path.join(R.tmp, f"s{idx}")
+    # the dataset directory lies five levels below R.tmp, so that even a defective accessor
+    # following "../.." (the deepest escape the generators produce) stays inside R.tmp
+    sb = os.path.join(R.tmp, f"s{idx}", "n1", "n2")
     os.makedirs(os.path.join(sb, "w"))
     with open(os.path.join(sb, "w", "sentinel"), "wb") as f:
         f.write(SENTINEL)
@@ -559,8 +583,8 @@ def file_accessor_part(R, nseq):
             for o in ops:
                 if o[0] == "sf" and py_norm(o[1]) is not None:
                     mime_ex["/".join(py_norm(o[1]))] = o[3] in EXEMPT
-                if o[0] == "sc":
-                    mime_ex["/".join(py_chunk_rel(flat, o[1], o[2]))] = o[4] in EXEMPT
+                if o[0] == "sc" and isinstance(py_key(o[1]), tuple):
+                    mime_ex["/".join(py_chunk_rel(flat, py_key(o[1]), o[2]))] = o[4] in EXEMPT
             for n, v in want.items():
                 rel = n.decode()[1:]
                 zipped = gz and not mime_ex.get(rel, False)
@@ -592,18 +616,15 @@ def file_accessor_part(R, nseq):
                         break
         # 4. oracle: confinement
         for op, what in j["escapes"]:
-            reg = fa_region(j["cfg"], j["base"], op)
-            if reg and any(f["id"] == reg for f in R.findings):
-                R.known(reg)
-                R.count("fa:escape:" + reg)
-            else:
-                R.violation("an operation touched the file system outside the dataset directory",
-                            {**case, "op": [x if not isinstance(x, bytes) else x[:16] for x in op]},
-                            {"changed": str(what)[:300]})
+            R.violation("an operation touched the file system outside the dataset directory",
+                        {**case, "op": [x if not isinstance(x, bytes) else x[:16] for x in op]},
+                        {"changed": str(what)[:300]})
         for op, r in zip(ops, j["outs"]):
-            if op[0] in ("sf", "ff", "ex") and escapes_lexically(j["base"], op[1]) and r != ["Refused"]:
-                if not any(e[0] is op for e in j["escapes"]):
-                    R.violation("escaping relative name not refused", case, {"op": op[:2], "impl": _short(r)})
+            if op[0] in ("sf", "ff", "ex") and (escapes_lexically(j["base"], op[1]) or py_norm_any(j["base"], op[1]) == ())                     and r != ["Refused"]:
+                R.violation("escaping or empty name not refused", case, {"op": op[:2], "impl": _short(r)})
+            if op[0] in ("sc", "fc") and chunk_target_escapes(j["base"], op[1]) and r != ["Refused"]:
+                R.violation("scale key leaving the dataset directory not refused", case,
+                            {"op": op[:2], "impl": _short(r)})
 
 
 def _short(o):
@@ -674,10 +695,10 @@ def sharded_part(R, nseq):
             R.disagree("ShardedFileAccessor tree vs model", case, [str(x)[:200] for x in d[:4]], "model tree")
         # oracle: confinement; last-write-wins on clean names
         for op in j["escapes"]:
-            if escapes_lexically(j["base"], op[1]) and any(f["id"] == "sharded-unconfined" for f in R.findings):
-                R.known("sharded-unconfined")
-            else:
-                R.violation("sharded accessor touched a path outside the dataset directory", case, {"op": op[:2]})
+            R.violation("sharded accessor touched a path outside the dataset directory", case, {"op": op[:2]})
+        for op, o in zip(j["ops"], j["outs"]):
+            if escapes_lexically(j["base"], op[1]) and o != ["Refused"]:
+                R.violation("sharded accessor: escaping name not refused", case, {"op": op[:2], "impl": _short(o)})
         last = {}
         for op, o in zip(j["ops"], j["outs"]):
             n = py_norm(op[1])
@@ -885,30 +906,29 @@ def dispatch_part(R, n):
 
 
 def witnesses(R):
-    """Replay the recorded witnesses of the listed findings on the real code."""
+    """The witnesses of the defects that were repaired in /repo (commits d12856d, 7463fc5),
+    replayed on every run as fixed inputs: each must be refused and leave no trace."""
     from neuroglancer_scripts.file_accessor import FileAccessor
     from neuroglancer_scripts.sharded_file_accessor import ShardedFileAccessor
-    ids = {f["id"] for f in R.findings}
     sb, base = make_sandbox(R, "wit", True)
-    if "fa-empty-name-escapes" in ids:
-        run_impl(lambda: FileAccessor(base, gzip=True).store_file("", b"abc"))
-        if os.path.exists(base + ".gz"):
-            R.known("fa-empty-name-escapes")
-            os.unlink(base + ".gz")
-        else:
-            R.notes.append("finding fa-empty-name-escapes: witness no longer fails")
-    if "fa-chunk-key-unconfined" in ids:
-        run_impl(lambda: FileAccessor(base, gzip=False).store_chunk(b"zz", "../esc", (0, 1, 0, 1, 0, 1)))
-        if os.path.exists(os.path.join(sb, "w", "esc")):
-            R.known("fa-chunk-key-unconfined")
-        else:
-            R.notes.append("finding fa-chunk-key-unconfined: witness no longer fails")
-    if "sharded-unconfined" in ids:
-        r = run_impl(lambda: ShardedFileAccessor(base).fetch_file("../sentinel"))
-        if r == ["ok", SENTINEL]:
-            R.known("sharded-unconfined")
-        else:
-            R.notes.append("finding sharded-unconfined: witness no longer fails")
+    checks = [
+        ("FileAccessor.store_file('') with gzip", lambda: FileAccessor(base, gzip=True).store_file("", b"abc"),
+         base + ".gz"),
+        ("FileAccessor.store_chunk with key '../esc'",
+         lambda: FileAccessor(base, gzip=False).store_chunk(b"zz", "../esc", (0, 1, 0, 1, 0, 1)),
+         os.path.join(sb, "w", "esc")),
+        ("ShardedFileAccessor.fetch_file('../sentinel')",
+         lambda: ShardedFileAccessor(base).fetch_file("../sentinel"), None),
+        ("ShardedFileAccessor.store_file('../new')",
+         lambda: ShardedFileAccessor(base).store_file("../new", b"x"), os.path.join(sb, "w", "new")),
+    ]
+    for what, fn, leftover in checks:
+        out = run_impl(fn)
+        case = {"regression": what}
+        R.case(case, nontrivial=True)
+        if out != ["Refused"] or (leftover and os.path.exists(leftover)):
+            R.violation("a name or key leaving the dataset directory is not refused", case,
+                        {"impl": _short(out), "left": leftover if leftover and os.path.exists(leftover) else None})
 
 
 def selfcheck(R):
